@@ -10,6 +10,10 @@ CONSTANTS Stoppers = {"s1", "s2"}
  DoubleSend = FALSE
  SharedWaitGroup = FALSE
  Replayable = TRUE
+ WriteClients = {"c1"}
+ WritingOutlivesRun = FALSE
+ MaxPolls = 1
+ PollOnce = FALSE
  SimDepth = 40
 INVARIANTS Emit
 CHECK_DEADLOCK FALSE
